@@ -47,6 +47,16 @@ PROPS = {
             part("v2in", "TestVerif_C04_Repeat", "repeat", 0, 0, shards=(4, 8), enum=True, compare_digest=True),
         ],
     },
+    "C05": {
+        "rule": "metamorphic: compositions of 1-4 presentation transformations applied at drawn positions of generated license-bearing inputs; oracle = identical token ids with monotonically mapped lines and identical canonical Match results (names, variants, confidences, token spans, mapped lines); lines ending in a dash and their continuation are exempt (frozen, counted); non-trivial = X has a license match and T(X) != X",
+        "assumptions": ["the hyphen exemption is applied per line: a line whose last non-blank rune is a dash and everything up to the next non-blank line are never touched"],
+        "parts": [part("v2in", "TestVerif_C05", "presentation", 3000, 30000, shards=(12, 16))],
+    },
+    "C06": {
+        "rule": "metamorphic: notice/date line insertion, list-marker prefixes, hyphen splits, interchangeable spellings and http/https switches at drawn positions of generated license-bearing inputs; oracle: token ids unchanged, reported licenses unchanged (names, variants, confidences, token spans), inserted notices outside license spans reported as Copyright on exactly their line and no Copyright entry elsewhere; non-trivial = X has a license match and an operation was applied",
+        "assumptions": ["position restrictions are evaluated with independent, generous predicates written in the harness (never with the tokenizer under test)", "open known findings F13 (<letter>) marker) and F14 (notice inside a reported license span) are excluded by construction / counted; their witnesses are replayed"],
+        "parts": [part("v2in", "TestVerif_C06", "ignorable-text", 3000, 30000, shards=(12, 16))],
+    },
     "C07": {
         "rule": "metamorphic: Match(P+X+S) equals Match(X) shifted by |P| tokens and lines(P) lines, for generated X (exact, noisy, truncated, multi-license) and OOV blocks P, S; premise verified at token level; non-trivial = Match(X) non-empty and |P| > 0",
         "assumptions": ["tied matches are compared in canonical order (their relative order is C04's subject)"],
@@ -91,6 +101,16 @@ MANIFEST_TEXT = {
         "level": "Generated call histories (model-based: reference results from a pristine classifier), corpus permutations/supersets, caller-buffer snapshots and repeated/cross-process matching of tie-prone inputs, all with the oracle 'bit-identical ordered Results'. Found the tie-order defect F1 (fixed). Bounded exploration; separate processes vary Go's map seeds.",
         "note": _V2NOTE + " Cross-process comparison assumes the deterministic batch is identical in every process (it is a pure function of the tree).",
         "technique": "stateful property-based testing against a pristine reference + metamorphic corpus permutation + cross-process digest comparison",
+    },
+    "C05": {
+        "level": "Metamorphic property testing at two levels (token stream and Match results): thousands of compositions of presentation transformations at drawn positions of generated license-bearing inputs, with the hyphen exemption applied per line. Bounded exploration.",
+        "note": _V2NOTE,
+        "technique": "metamorphic property-based testing (rapid)",
+    },
+    "C06": {
+        "level": "Metamorphic property testing: notice/date insertion, list markers, hyphen splits, spelling pairs and http/https at drawn positions; token ids and reported licenses must be unchanged and inserted notices reported on their line. Two genuine deviations are recorded as known findings (F13, F14) and excluded by construction so the search continues behind them. Bounded exploration.",
+        "note": _V2NOTE + " Position restrictions use independent predicates written in the harness, not the tokenizer under test.",
+        "technique": "metamorphic property-based testing (rapid) with known-finding classes excluded by construction",
     },
     "C07": {
         "level": "Metamorphic property testing: thousands of (X, prefix, suffix) triples; Match(P+X+S) must equal Match(X) shifted, for exact, noisy, truncated and multi-license X; the premise is verified at token level so no case relies on hopeful construction. Bounded exploration.",
